@@ -370,6 +370,38 @@ func specImplED(op int) bool {
 // at pre.PC.  sb is the model's own bus (fork of the implementation's initial
 // bus): its trace is the expected access trace, its memory the expected memory.
 func vSpecStep(pre States, sb *vBus, tbl, op int) vSpecOut {
+	o, _ := vSpecStepMode(pre, sb, tbl, op, false)
+	return o
+}
+
+// vSpecSiliconDefined: does the model define what Z80 silicon does for this
+// encoding outside the emulator's implemented set?  (Used so that a maintainer
+// who ADDS a correct instruction raises no alarm: outside the set either
+// "consumed, no effect" or the silicon behaviour is accepted.)
+func vSpecSiliconDefined(tbl, op int) bool {
+	switch tbl {
+	case 2:
+		if specImplED(op) {
+			return false
+		}
+		x, z := op>>6, op&7
+		// NEG / RETN / IM mirrors, IN F,(C), OUT (C),0; every other hole is a 2-byte NOP (= consumed)
+		return x == 1 && (z == 4 || z == 5 || z == 6 || op == 0x70 || op == 0x71)
+	case 3, 4:
+		if specImplDD(op) {
+			return false
+		}
+		// prefix bytes and the prefixed HALT are left alone
+		return op != 0xdd && op != 0xfd && op != 0xed && op != 0xcb && op != 0x76
+	case 5, 6:
+		return op&7 != 6
+	}
+	return false
+}
+
+// vSpecStepMode: silicon = true gives, for encodings outside the implemented
+// set, the behaviour of the silicon (second result false if not defined).
+func vSpecStepMode(pre States, sb *vBus, tbl, op int, silicon bool) (vSpecOut, bool) {
 	var o vSpecOut
 	o.FMask = 0xff
 	s := pre
@@ -417,9 +449,49 @@ func vSpecStep(pre States, sb *vBus, tbl, op int) vSpecOut {
 	}
 	if !o.Impl {
 		o.Kind = skInvalid
+		if silicon {
+			if !vSpecSiliconDefined(tbl, op) {
+				o.S = s
+				return o, false
+			}
+			switch tbl {
+			case 2:
+				y, z := (op>>3)&7, op&7
+				switch {
+				case z == 4:
+					specED(&s, &o, sb, pre, 0x44)
+				case z == 5:
+					specED(&s, &o, sb, pre, 0x45)
+				case z == 6:
+					im := 0
+					if y == 2 || y == 6 {
+						im = 1
+					} else if y == 3 || y == 7 {
+						im = 2
+					}
+					s.IM = im
+				case op == 0x70: // IN F,(C): flags only
+					v := sb.In(s.BC.Lo)
+					s.AF.Lo = pre.AF.Lo&sfC | specSZ53(v) | specParity(v)
+				default: // OUT (C),0
+					sb.Out(s.BC.Lo, 0)
+				}
+			case 3, 4:
+				// the prefix has no effect on this instruction
+				specMain(&s, &o, sb, pre, op, tbl-2)
+			default:
+				// rot/RES/SET (IX+d) with the result also copied to r[z]; BIT as usual
+				specXYCB(&s, &o, sb, op|6, tbl-4, d)
+				if op>>6 != 1 {
+					a := specRel(specHLx(&pre, tbl-4), d)
+					specSetR(&s, op&7, 0, sb.Peek(a))
+				}
+			}
+			o.Kind = skInvalid
+		}
 	}
 	o.S = s
-	return o
+	return o, true
 }
 
 // operand (HL) or (IX+d): address; fetches d when indexed
